@@ -118,7 +118,11 @@ static int vf_mutex_unlock(pthread_mutex_t *m) {
     if (vf_lock_depth == 0 && vf_sched_hook && !vf_in_hook) { vf_in_hook = 1; vf_sched_hook(VF_SCHED_RELEASE); vf_in_hook = 0; }
     return 0;
 }
-static int vf_mutex_init(pthread_mutex_t *m, const pthread_mutexattr_t *a) { (void)m; (void)a; return 0; }
+static int vf_mutex_init(pthread_mutex_t *m, const pthread_mutexattr_t *a) {
+    (void)a;
+    VF_ASSERT(m != NULL, "C15.mutex.init.null: pthread_mutex_init is never handed a NULL mutex (mutex allocation failure must be handled)");
+    return 0;
+}
 static int vf_mutex_destroy(pthread_mutex_t *m) { (void)m; return 0; }
 static int vf_mutexattr_any(pthread_mutexattr_t *a) { (void)a; return 0; }
 static int vf_mutexattr_settype(pthread_mutexattr_t *a, int t) { (void)a; (void)t; return 0; }
